@@ -151,6 +151,25 @@ pub fn run(tier: Tier) -> i32 {
     });
     run.absorb(l);
 
+    // size witnesses: the library's text is a sentence denoting the value, and the reference
+    // writer's canonical text decodes to it
+    let sw = u::size_witnesses_cached(tier);
+    let l = crate::engine::par_for_stack(sw.len(), 64 << 20, |i, local| {
+        check_value(&sw[i], local, true, &emitted_is_sentence);
+        local.count("size-witnesses");
+        let text = zinc_ref::write_canonical(&sw[i]);
+        match guarded(|| from_str(&text)) {
+            Ok(Ok(back)) => {
+                if let Err(d) = crate::model::v::same(&sw[i], &crate::model::v::from_lib(&back)) {
+                    local.fail(&format!("d2-decoded-other-value[]:{}", crate::model::shrink::shape_sig(&sw[i]).chars().take(80).collect::<String>()), json!({"value": to_json(&sw[i]), "choices": []}), d.chars().take(500).collect());
+                }
+            }
+            Ok(Err(e)) => local.fail(&format!("d2-decode-error[]:{}", crate::model::shrink::shape_sig(&sw[i]).chars().take(80).collect::<String>()), json!({"value": to_json(&sw[i]), "choices": []}), e.to_string()),
+            Err(p) => local.fail("d2-decode-panic[]:size-witness", json!({"value": to_json(&sw[i]), "choices": []}), p),
+        }
+    });
+    run.absorb(l);
+
     // ---- direction 2
     // (a) every scalar: all spellings with <= 2 deviations; unbounded when the space is small
     let sc2 = u::scalars(Tier::Quick);
